@@ -305,11 +305,16 @@ def taggingVal : Val :=
                   .struct [.absent, .one (.str [])]]]
 
 example (X : Ext) : Fits X taggingSch taggingVal := by
-  simp only [taggingSch, taggingVal, Fits, FitsFields]
+  unfold taggingSch taggingVal
+  rw [fits_struct, fitsFields_wrapped, fitsFields_nil]
   refine ⟨?_, trivial⟩
   intro v hv
   simp only [List.mem_cons, List.not_mem_nil, or_false] at hv
-  rcases hv with hv | hv <;> subst hv <;> simp only [Fits, FitsFields, and_true, true_and] <;> decide
+  rcases hv with hv | hv <;> subst hv
+  · rw [fits_struct, fitsFields_one, fitsFields_one, fitsFields_nil, fits_str, fits_str]
+    exact ⟨by decide, by decide, trivial⟩
+  · rw [fits_struct, fitsFields_absent, fitsFields_one, fitsFields_nil, fits_str]
+    exact ⟨rfl, by decide, trivial⟩
 
 example : charsMeaning [.comment, .text [97, 38, 108, 116, 59], .cdata []] = some [97, 60] ∧
     interrupted [.comment, .text [97, 38, 108, 116, 59], .cdata []] = false := by decide
